@@ -155,7 +155,7 @@ impl Expr {
                 ExprNode::Xor => {
                     let rhs = stack.pop().unwrap();
                     let lhs = stack.pop().unwrap();
-                    stack.push(lhs & rhs);
+                    stack.push(lhs ^ rhs);
                 }
                 ExprNode::AndLogical => {
                     let rhs = stack.pop().unwrap();
